@@ -21,7 +21,15 @@ impl BananaShower {
             let mut count = 0;
 
             while time <= end_time {
-                time += spacing;
+                let next = time + spacing;
+
+                // On huge timestamps `f32` can no longer represent the step
+                // so `time` would never advance.
+                if next <= time {
+                    break;
+                }
+
+                time = next;
                 count += 1;
             }
 
